@@ -171,9 +171,92 @@ def modulator_amplitude_polarity(repo: Repo, ci_demod: ClassInfo) -> Optional[st
     return out
 
 
+_SOFT_TAB_CACHE: Dict[tuple, tuple] = {}
+
+
+def soft_sign_tabulated(repo: Repo, ci: ClassInfo, fi: FuncInfo):
+    """Finite tabulation for a table-driven soft demodulator whose polarity the abstract domain cannot decide: the paired
+    modulator's constructor is evaluated (own arithmetic) for its small orders and both labelings, then the soft branch of
+    `forward` at every constellation point (noise-free): the LLR of bit j at point i must be positive iff label bit j of
+    point i is 0.  Returns (OK | VIOLATION, detail) or (None, reason)."""
+    key = (repo.root if hasattr(repo, "root") else id(repo), ci.file, ci.name)
+    if key in _SOFT_TAB_CACHE:
+        return _SOFT_TAB_CACHE[key]
+    from ..constfold import PySeq, Unfoldable
+    from ..frag import FragRaise, FragReturn, run_fragment
+
+    def done(st, d):
+        _SOFT_TAB_CACHE[key] = (st, d)
+        return st, d
+
+    mc = ci.module.classes.get(ci.name.replace("Demodulator", "Modulator"))
+    cc = mc.find_method("_create_constellation") if mc is not None else None
+    if cc is None:
+        return done(None, "no paired modulator with a table constructor")
+    funcs_m = {nm: f_.node for nm, f_ in ci.module.functions.items()}
+    for mi_ in repo.modules.values():
+        if mi_.relpath == "kaira/modulations/utils.py":
+            funcs_m.update({nm: f_.node for nm, f_ in mi_.functions.items()})
+    funcs_d = dict(funcs_m)
+    funcs_d.update({f"self.{nm}": f_.node for nm, f_ in ci.methods.items() if nm not in ("forward", "__init__")})
+    square = "QAM" in ci.name
+    orders = (4, 16, 64) if square else (2, 4, 8, 16)
+    count = 0
+    for gray in (True, False):
+        for M_ in orders:
+            b = M_.bit_length() - 1
+            mat = {"self.order": M_, "self._bits_per_symbol": b, "self.bits_per_symbol": b, "self.gray_coding": gray, "self.normalize": False}
+            if square:
+                mat["self._k"] = int(round(M_ ** 0.5))
+            try:
+                env = run_fragment(cc.body, {}, mat, max_steps=900000, materialise=True, funcs=funcs_m)
+            except (Unfoldable, FragRaise, FragReturn, TypeError, ValueError, IndexError) as exc:
+                return done(None, f"modulator tables for order {M_} not evaluable ({exc})")
+            pts, bp, lv = env.get("constellation"), env.get("bit_patterns"), env.get("levels")
+            if not isinstance(pts, list) and isinstance(lv, list):
+                pts = [complex(x, 0.0) for x in lv]
+            if not (isinstance(pts, list) and len(pts) == M_ and all(isinstance(z, (int, float, complex)) for z in pts) and isinstance(bp, list) and len(bp) == M_ and all(isinstance(r_, list) and len(r_) == b for r_ in bp)):
+                return done(None, f"modulator tables for order {M_} have an unexpected form")
+            pts = [complex(z) for z in pts]
+            attrs = {"self.modulator.constellation": pts, "self.modulator.bit_patterns": bp, "self.modulator.levels": [z.real for z in pts], "self.constellation": pts, "self.bit_patterns": bp, "self._bits_per_symbol": b, "self.bits_per_symbol": b, "self.order": M_, "self.gray_coding": gray, "self.normalize": False}
+            try:
+                run_fragment(fi.body, {"y": list(pts), "noise_var": 0.5, "args": PySeq([]), "kwargs": {}}, attrs, funcs=funcs_d, materialise=True, max_steps=4000000)
+                return done(None, "no value returned")
+            except FragReturn as ret:
+                out = ret.value
+            except (Unfoldable, FragRaise, TypeError, ValueError, IndexError, ZeroDivisionError) as exc:
+                return done(None, f"soft branch not evaluable for order {M_} ({exc})")
+            if not (isinstance(out, list) and len(out) == M_ * b and all(isinstance(x, (int, float)) and not isinstance(x, bool) for x in out)):
+                return done(None, f"soft output for order {M_} is not {M_ * b} real numbers")
+            for i in range(M_):
+                for j in range(b):
+                    llr = out[i * b + j]
+                    want0 = int(bp[i][j]) == 0
+                    if not (llr == llr) or (llr > 0) != want0 or llr == 0:
+                        return done(VIOLATION, f"order {M_}, gray_coding={gray}: at the constellation point {pts[i]} (label {[int(x) for x in bp[i]]}) the LLR of bit {j} is {llr!r}; the transmitted bit is {int(bp[i][j])}, so it must be {'positive' if want0 else 'negative'} (positive <=> bit 0)")
+                    count += 1
+    return done(OK, f"tabulated at every constellation point for orders {orders} and both labelings ({count} LLRs): positive <=> the point's label bit is 0")
+
+
 def decide_producer(repo, rep, ci, fi, v: PV, r: ast.Return, interp: Polarity) -> int:
     construct = f"soft branch: {unparse(r)}"
     trace = [f"abstract value of the returned LLR: {v.show()}"] + [f"idiom: {x}" for x in interp.idioms[:4]]
+    _undecided = rep.undecided
+    real_rep = rep
+
+    class _RepProxy:
+        """an UNDECIDED polarity verdict is replaced by the finite tabulation where that is available"""
+
+        def __getattr__(self, name):
+            return getattr(real_rep, name)
+
+        def undecided(self, rule, where, cons, detail, **kw):
+            st_, d_ = soft_sign_tabulated(repo, ci, fi)
+            if st_ is None:
+                return _undecided(rule, where, cons, f"{detail}; tabulation: {d_}", **kw)
+            return real_rep.add(rule, where, cons, st_, d_, node=kw.get("node"))
+
+    rep = _RepProxy()
     d0, d1 = v.p("D0"), v.p("D1")
     if "D0" in v.seeds or "D1" in v.seeds or "E0" in v.seeds or "E1" in v.seeds:
         if v.p("E0") != C or v.p("E1") != C:
